@@ -45,6 +45,53 @@ func (e *Engine) errorValue(tag string) Value {
 
 func int64Term(v int64) *Term { return ConstBV(uint64(v), 64) }
 
+// regexMatchTerm is the uninterpreted "pattern matches somewhere in / all of subject" predicate of the regexp model.
+func (e *Engine) regexMatchTerm(pat, subj StringVal) *Term {
+	fn := "M"
+	if pat.Atom != nil {
+		switch {
+		case pat.Pre == "^" && pat.Suf == "$":
+		case pat.Pre == "" && pat.Suf == "":
+			fn = "Munanchored"
+		case pat.Pre == "^" && pat.Suf == "":
+			fn = "Mprefix"
+		case pat.Pre == "" && pat.Suf == "$":
+			fn = "Msuffix"
+		default:
+			unsupported("regexp pattern %q + atom + %q", pat.Pre, pat.Suf)
+		}
+		pat.Pre, pat.Suf = "", ""
+	}
+	// the uninterpreted predicate agrees with the real regexp engine on every pair of concrete members of the domains
+	if pat.Atom != nil || subj.Atom != nil {
+		pcs, scs := pat.Cands, subj.Cands
+		if c, ok := pat.Concrete(); ok {
+			pcs = []string{c}
+		}
+		if c, ok := subj.Concrete(); ok {
+			scs = []string{c}
+		}
+		deco := map[string][2]string{"M": {"^(?:", ")$"}, "Munanchored": {"(?:", ")"}, "Mprefix": {"^(?:", ")"}, "Msuffix": {"(?:", ")$"}}[fn]
+		for _, pc := range pcs {
+			re, err := regexp.Compile(deco[0] + pc + deco[1])
+			if err != nil {
+				continue
+			}
+			for _, sc := range scs {
+				pid, sid := ConstInt(int64(e.intern(pc))), ConstInt(int64(e.intern(sc)))
+				e.axiom("Mc|"+fn+"|"+pc+"|"+sc, Eq(e.uf(fn, []*Term{pid, sid}, BoolSort), ConstBool(re.MatchString(sc))))
+			}
+		}
+	}
+	args := []*Term{e.strID(pat), e.strID(subj)}
+	r := e.uf(fn, args, BoolSort)
+	if fn != "M" {
+		// a full match is in particular a prefix, suffix and substring match
+		e.axiom("anch|"+r.String(), Implies(e.uf("M", args, BoolSort), r))
+	}
+	return r
+}
+
 func registerStubs(e *Engine) {
 	// regexp: compile keeps the pattern; matching is the uninterpreted predicate M(pattern, subject). A pattern that is
 	// "^" + atom + "$" is identified with the atom (that is what "fully anchored" means); an atom used as a pattern
@@ -75,28 +122,7 @@ func registerStubs(e *Engine) {
 				return ConstBool(r.MatchString(sc))
 			}
 		}
-		fn := "M"
-		if pat.Atom != nil {
-			switch {
-			case pat.Pre == "^" && pat.Suf == "$":
-			case pat.Pre == "" && pat.Suf == "":
-				fn = "Munanchored"
-			case pat.Pre == "^" && pat.Suf == "":
-				fn = "Mprefix"
-			case pat.Pre == "" && pat.Suf == "$":
-				fn = "Msuffix"
-			default:
-				unsupported("regexp pattern %q + atom + %q", pat.Pre, pat.Suf)
-			}
-			pat.Pre, pat.Suf = "", ""
-		}
-		args := []*Term{e.strID(pat), e.strID(subj)}
-		r := e.uf(fn, args, BoolSort)
-		if fn != "M" {
-			// a full match is in particular a prefix, suffix and substring match
-			e.axiom("anch|"+r.String(), Implies(e.uf("M", args, BoolSort), r))
-		}
-		return r
+		return e.regexMatchTerm(pat, subj)
 	}
 	e.intr["(*regexp.Regexp).MatchString"] = match
 	e.intr["github.com/prometheus/common/model.ParseDuration"] = func(e *Engine, st *State, cc *ssa.CallCommon, a []Value) Value {
